@@ -345,6 +345,21 @@ def _derived(n, st, root_out, props, vios, res):
 
             return partition_molecule_by_attribute(g, "atomic_number")
         variants.append(("pre-partitioned-input", prepartitioned))
+
+        def edited_from_neighbour():
+            # arrive at this molecule by editing, in place, the caller's graph of a neighbouring molecule (one bond
+            # toggled) that has just been canonicalized
+            colors, mask = st
+            st_nb = (colors, mask ^ 1)
+            g_nb = pipeline(n, st_nb)[0]
+            canonicalize_molecule(g_nb)
+            a, b = G.pairs(n)[0]
+            if mask & 1:
+                g_nb.add_edge(a, b, bond_type=1)
+            else:
+                g_nb.remove_edge(a, b)
+            return g_nb
+        variants.append(("edited-in-place-from-neighbour", edited_from_neighbour))
     for name, mk in variants:
         res["transitions"] += 1
         try:
